@@ -172,9 +172,9 @@ private:
         A0,UpperFsm,A1,A2,A3,A4>                                        library_sm;
 
     typedef ::boost::function<
-        ::boost::msm::back::execute_return ()>                          transition_fct;
+        ::boost::msm::back::execute_return (library_sm*)>               transition_fct;
     typedef ::boost::function<
-        ::boost::msm::back::execute_return () >                         deferred_fct;
+        ::boost::msm::back::execute_return (library_sm*) >              deferred_fct;
     typedef typename QueueContainerPolicy::
         template In<
             std::pair<deferred_fct,char> >::type    deferred_events_queue_t;
@@ -1318,7 +1318,7 @@ private:
 
         m_events_queue.m_events_queue.push_back(
             ::boost::bind(
-                pf, this, evt,
+                pf, ::boost::placeholders::_1, evt,
                 static_cast<::boost::msm::back::EventSource>(::boost::msm::back::EVENT_SOURCE_MSG_QUEUE)));
     }
     template <class EventType>
@@ -1333,7 +1333,7 @@ private:
         {
             transition_fct to_call = m_events_queue.m_events_queue.front();
             m_events_queue.m_events_queue.pop_front();
-            to_call();
+            to_call(this);
         }
     }
     void execute_queued_events_helper(::boost::mpl::true_ const &)
@@ -1344,7 +1344,7 @@ private:
     {
         transition_fct to_call = m_events_queue.m_events_queue.front();
         m_events_queue.m_events_queue.pop_front();
-        to_call();
+        to_call(this);
     }
     void execute_single_queued_event_helper(::boost::mpl::true_ const &)
     {
@@ -1597,7 +1597,7 @@ private:
         m_deferred_events_queue.m_deferred_events_queue.push_back(
             std::make_pair(
                 ::boost::bind(
-                    pf, this, e, static_cast<::boost::msm::back::EventSource>(::boost::msm::back::EVENT_SOURCE_DIRECT|::boost::msm::back::EVENT_SOURCE_DEFERRED)),
+                    pf, ::boost::placeholders::_1, e, static_cast<::boost::msm::back::EventSource>(::boost::msm::back::EVENT_SOURCE_DIRECT|::boost::msm::back::EVENT_SOURCE_DEFERRED)),
                 static_cast<char>(m_deferred_events_queue.m_cur_seq+1)));
     }
 
@@ -1627,7 +1627,7 @@ private:
                 m_fsm->m_deferred_events_queue.m_deferred_events_queue.push_back(
                     std::make_pair(
                         ::boost::bind(
-                            pf, m_fsm, boost::any_cast<Event>(m_event), static_cast<::boost::msm::back::EventSource>(::boost::msm::back::EVENT_SOURCE_DIRECT | ::boost::msm::back::EVENT_SOURCE_DEFERRED)),
+                            pf, ::boost::placeholders::_1, boost::any_cast<Event>(m_event), static_cast<::boost::msm::back::EventSource>(::boost::msm::back::EVENT_SOURCE_DIRECT | ::boost::msm::back::EVENT_SOURCE_DEFERRED)),
                         static_cast<char>(m_fsm->m_deferred_events_queue.m_cur_seq + 1)));
             }
         }
@@ -1880,7 +1880,7 @@ protected:    // interface for the derived class
                     is_no_message_queue<library_sm>::type::value>());
             if (!(::boost::msm::back::EVENT_SOURCE_DEFERRED & source))
             {
-                handle_defer_helper<library_sm> defer_helper(m_deferred_events_queue);
+                handle_defer_helper<library_sm> defer_helper(m_deferred_events_queue,this);
                 defer_helper.do_handle_deferred(::boost::msm::back::HANDLED_TRUE & handled);
             }
         }
@@ -1890,7 +1890,7 @@ protected:    // interface for the derived class
         // default. Handle deferred queue with higher prio than msg queue
         if (!(::boost::msm::back::EVENT_SOURCE_DEFERRED & source))
         {
-            handle_defer_helper<library_sm> defer_helper(m_deferred_events_queue);
+            handle_defer_helper<library_sm> defer_helper(m_deferred_events_queue,this);
             defer_helper.do_handle_deferred(::boost::msm::back::HANDLED_TRUE & handled);
 
             // Handle any new events generated into the queue, but only if
@@ -1922,7 +1922,7 @@ protected:    // interface for the derived class
             // event has to be put into the queue
             m_events_queue.m_events_queue.push_back(
                 ::boost::bind(
-                    pf, this, evt,
+                    pf, ::boost::placeholders::_1, evt,
                     static_cast<::boost::msm::back::EventSource>(::boost::msm::back::EVENT_SOURCE_DIRECT | ::boost::msm::back::EVENT_SOURCE_MSG_QUEUE)));
 
             return false;
@@ -1980,7 +1980,7 @@ protected:    // interface for the derived class
     template <class StateType, class Enable = int>
     struct handle_defer_helper
     {
-        handle_defer_helper(deferred_msg_queue_helper<library_sm>& ){}
+        handle_defer_helper(deferred_msg_queue_helper<library_sm>& ,library_sm* ){}
         void do_handle_deferred(bool)
         {
         }
@@ -1990,8 +1990,8 @@ protected:    // interface for the derived class
     struct handle_defer_helper
         <StateType, typename enable_if< typename ::boost::msm::back11::has_fsm_deferred_events<StateType>::type,int >::type>
     {
-        handle_defer_helper(deferred_msg_queue_helper<library_sm>& a_queue):
-            m_events_queue(a_queue) {}
+        handle_defer_helper(deferred_msg_queue_helper<library_sm>& a_queue,library_sm* fsm):
+            m_events_queue(a_queue),m_fsm(fsm) {}
         void do_handle_deferred(bool new_seq=false)
         {
             // A new sequence is typically started upon initial entry to the
@@ -2021,7 +2021,7 @@ protected:    // interface for the derived class
 
                 deferred_fct next = pair.first;
                 m_events_queue.m_deferred_events_queue.pop_front();
-                boost::msm::back::execute_return res = next();
+                boost::msm::back::execute_return res = next(m_fsm);
                 if (res != ::boost::msm::back::HANDLED_FALSE && res != ::boost::msm::back::HANDLED_DEFERRED)
                 {
                     not_only_deferred = true;
@@ -2062,6 +2062,7 @@ protected:    // interface for the derived class
 
     private:
         deferred_msg_queue_helper<library_sm>& m_events_queue;
+        library_sm*                            m_fsm;
     };
 
     // handling of eventless transitions
@@ -2864,7 +2865,7 @@ BOOST_PP_REPEAT(BOOST_PP_ADD(BOOST_MSM_VISITOR_ARG_SIZE,1), MSM_VISITOR_ARGS_EXE
         }
         // handle messages which were generated and blocked in the init calls
         // look for deferred events waiting
-        handle_defer_helper<library_sm> defer_helper(m_deferred_events_queue);
+        handle_defer_helper<library_sm> defer_helper(m_deferred_events_queue,this);
         defer_helper.do_handle_deferred(true);
         process_message_queue(this);
      }
@@ -2930,7 +2931,7 @@ BOOST_PP_REPEAT(BOOST_PP_ADD(BOOST_MSM_VISITOR_ARG_SIZE,1), MSM_VISITOR_ARGS_EXE
         {
             transition_fct next = m_events_queue.m_events_queue.front();
             m_events_queue.m_events_queue.pop_front();
-            next();
+            next(this);
         }
     }
     template <class StateType>
